@@ -190,7 +190,7 @@ reg(Spec("C17", "c17_reset.cpp", needs=("shim", "optable"),
               "dirty / AHBM host accessors; a quarter of the cases on caller-supplied (zeroed) DSP memory; two real instances whose heap was pre-filled with different byte patterns; mode fresh: Q "
               "straight after construction on both; mode reset: construct;P;Reset;Q vs construct;Reset;Q; the observation (all "
               "registers incl. banks, memory digest, masked read-back of ~140 modelled MMIO registers, host views) and the ordered "
-              "callback log are compared after every call of Q; a dozen never-written plain-storage cells are read back before Q. 'loadraw' = the host (optionally after Reset()) stores bytes through the memory pointer it fetched at construction / into its own buffer; programs include a codebook search (hidden operand). Non-trivial = P dirties >= 3 kinds of state and Q is non-empty "
+              "callback log are compared after every call of Q; a dozen never-written plain-storage cells are read back before Q. 'loadraw' = the host (optionally after Reset()) stores bytes through the memory pointer it fetched at construction / into its own buffer; programs include a codebook search (hidden operand). A quarter of the targeted writes to plain configuration registers use one of four values per register (the same value before and after a Reset). Non-trivial = P dirties >= 3 kinds of state and Q is non-empty "
               "(fresh mode: Q non-empty); distinct by hash of the encoded case.",
          assumptions=["backing-storage bits of MMIO bit-field cells that no peripheral models are masked out of the observation",
                       "the external (AHBM) world is the caller's: both sides continue with a fresh external memory after Reset",
@@ -309,7 +309,7 @@ reg(Spec("C19", "c19_threads.cpp", variant="tsan", needs=("optable", "lib"), wor
               "the join a fixed single-threaded drain (64 x Run(256)) must leave the last value of each channel on both sides "
               "and >= 1 handler entry; then one more SendData per channel, each followed by 4 x Run(128), must each be followed by a new "
               "handler entry (also into a still-full mailbox) and, where the DSP echoes, by a new host callback (also into a still-full "
-              "reply mailbox), and its value must be observed. In half of the schedules timer 0 (auto-restart, period 7..15) interrupts on int1 with its own service routine, competing with the mailbox requests. Non-trivial = both threads observed each other's progress >= 3 times and >= 1 send; "
+              "reply mailbox), and its value must be observed. In half of the schedules timer 0 (auto-restart, period 7..15) interrupts on int1 with its own service routine, competing with the mailbox requests. Semaphore epilogue: with every bit masked on the host side the host sets two bits, the DSP routine echoes them into its semaphore, and the host must read them (the mask gates the interrupt, not the value). Non-trivial = both threads observed each other's progress >= 3 times and >= 1 send; "
               "distinct by hash of the schedule.",
          assumptions=["the OS scheduler is not owned: interleaving coverage is statistical (pauses and slice sizes perturb it); the race "
                       "clause does not share this weakness because ThreadSanitizer is happens-before based",
